@@ -270,6 +270,19 @@ static void run_program(FILE* out, vj::Rng& r, unsigned idx, unsigned max_action
     // ---- limit probe: one kind, distances on both sides of its range limit, forward and backward ----
     const KindInfo& k = kinds[r.below(nk)];
     long long lim = k.limit ? k.limit : (1 << 12);
+    // second range limit of the kind (rel32: 2^31; adrp: 2^32) and distances that only differ from a small one
+    // above bit 32 (4 GiB + 64, 12 GiB + 4096, 16 GiB + 256): reached with virtual section sizes
+    {
+      std::string kn = k.name;
+      bool rel32 = arch == Arch::kX64 && (kn == "jmp" || kn == "jcc" || kn == "call" || kn == "riprel");
+      unsigned c2 = (unsigned)r.below(4);
+      if (rel32 && c2 == 0) lim = 1ll << 31;
+      else if (kn == "adrp" && c2 == 0) lim = 1ll << 32;
+      else if (c2 == 1 && (rel32 || arch == Arch::kAArch64)) {
+        static const long long far[] = {(1ll << 32) + 64, 3 * (1ll << 32) + 4096, (1ll << 34) + 256, (1ll << 32) - 64, (1ll << 33) + 8};
+        lim = far[r.below(5)];
+      }
+    }
     for (unsigned rep = 0; rep < 3; rep++) {
       long long delta = (long long)r.below(24) - 12;
       if (arch == Arch::kAArch64) delta *= 4;
